@@ -138,6 +138,19 @@ CLAIMED = {
             "Trusted: TLC; operands are identified by rank in a sorted boundary set; __LINE__ of each call site is "
             "captured next to the call.",
             "DESIGN.md 3.19"),
+    "C20": ("TLA+ definitions with BigNat (base-256 digit) arithmetic for wide integers, componentwise vector "
+            "operators, 4x4 matrix product, and a fixed-point statement of M * inverse(M) = I (spec/MathVec): TLC checks the "
+            "definitions against Euclid / order / orthogonality laws in small scope and validates recorded batches",
+            "gcd / reduce_fraction on [0,300]^2 for six integer types plus boundary and structured wide operands checked "
+            "by a TLA+ binary gcd and BigNat multiplication; log2i on every power of two +-1 for all eight widths; random_int "
+            "for boundary / random ranges with 20k-100k draws; random_data request sequences straddling the 4096-byte "
+            "refill on fresh threads (canaries + six differently pre-filled calls); Vector2 exhaustive on [-4,4]^2, "
+            "Vector3/4 sampled, every operator; random integer matrices for (AB)v = A(Bv), transposition; diagonally "
+            "dominant matrices for inversion to 1e-9.",
+            "Trusted: TLC; llround(x*1e12) in the harness for the fixed-point form of inverse(); norm1()/norm() are not "
+            "part of the statement and not checked; matrices are exported in mathematical (row, column) form from "
+            "phosg's column-major storage.",
+            "DESIGN.md 3.20"),
 }
 
 NOT_YET = "check not built yet in this round (planned: see DESIGN.md section 3)"
